@@ -126,6 +126,13 @@ def run(ctx):
         size = int(np.prod(shape))
         z = np.array([rng.uniform(-2, 2) for _ in range(size)])
         sing = [k for k in range(size) if rng.random() < 0.4]
+        if sing and size > 1 and rng.random() < 0.5:
+            # the same singular point occurs several times in the array (and is no round number)
+            for k in range(size):
+                if k not in sing and rng.random() < 0.4:
+                    z[k] = z[sing[0]]
+                    sing.append(k)
+            sing.sort()
         z0s = z.copy()
         gname = rng.choice(list(G))
         g = G[gname]
@@ -168,7 +175,8 @@ def run(ctx):
         regular = [k for k in range(size) if k not in sing]
         if any(f2hex(np.ravel(val)[k]) != f2hex(fz[k]) for k in regular):
             ctx.violation('Limit changed a value at a point where f is finite', z=z.tolist(), singular=sing, f_z=fz.tolist(), got=np.ravel(val).tolist())
-        if any(abs(np.ravel(val)[k] - g(z[k])) > 1e-6 * (1 + abs(g(z[k]))) for k in sing):
+        est_ = np.ravel(np.abs(np.asarray(info.error_estimate, dtype=float))) if np.size(info.error_estimate) == size else np.zeros(size)
+        if any(abs(np.ravel(val)[k] - g(z[k])) > 1000 * (est_[k] if est_[k] == est_[k] else 0.0) + 1e-10 * (1 + abs(g(z[k]))) for k in sing):
             ctx.violation('Limit at a singular point of an array is wrong', z=z.tolist(), singular=sing, got=np.ravel(val).tolist())
 
     # ---------------- failing-input search ------------------------------------------------------------------------------------------------
